@@ -2,6 +2,7 @@
    The subset of Rust it accepts and the meaning it gives to it are stated in that file. *)
 From Coq Require Import String.
 From Amq Require Import Lib.Base Lib.RsVal.
+Open Scope string_scope.
 Open Scope N_scope.
 
 Section Gen.
@@ -36,7 +37,7 @@ match scrut_1 with
 | VC c_ args_ =>
   if (c_ =? "State::Start")%string then
     match args_ with
-    | [a_7] => (if v_eqb (v_field "body_size" header) (VN 0) then
+    | [a_7] => (if (v_eqb (v_field "body_size" header) (VN 0)) then
 (VC "Ok" [(VC "Content::Done" [(t_new [channel_id; a_7; (VBytes []); (v_field "properties" header)])])])
 else
 let v_8 := (v_min (v_field "body_size" header) (VN 1048576)) in
@@ -123,7 +124,7 @@ match taken_1 with
 | VC c_ args_ =>
   if (c_ =? "None")%string then
     match args_ with
-    | [] => let self_6 := v_set "kind" (VC "Some" [(VC "Kind::Delivery" [(VC "State::Start" [deliver])])]) self_2 in
+    | [] => let self_6 := (v_set "kind" (VC "Some" [(VC "Kind::Delivery" [(VC "State::Start" [deliver])])]) self_2) in
 (self_6, (VC "Ok" [(VC "()" [])]))
     | _ => next_3 tt
     end
@@ -152,7 +153,7 @@ match taken_1 with
 | VC c_ args_ =>
   if (c_ =? "None")%string then
     match args_ with
-    | [] => let self_6 := v_set "kind" (VC "Some" [(VC "Kind::Return" [(VC "State::Start" [return_])])]) self_2 in
+    | [] => let self_6 := (v_set "kind" (VC "Some" [(VC "Kind::Return" [(VC "State::Start" [return_])])]) self_2) in
 (self_6, (VC "Ok" [(VC "()" [])]))
     | _ => next_3 tt
     end
@@ -181,7 +182,7 @@ match taken_1 with
 | VC c_ args_ =>
   if (c_ =? "None")%string then
     match args_ with
-    | [] => let self_6 := v_set "kind" (VC "Some" [(VC "Kind::Get" [(VC "State::Start" [get_ok])])]) self_2 in
+    | [] => let self_6 := (v_set "kind" (VC "Some" [(VC "Kind::Get" [(VC "State::Start" [get_ok])])]) self_2) in
 (self_6, (VC "Ok" [(VC "()" [])]))
     | _ => next_3 tt
     end
@@ -228,7 +229,7 @@ match scrut_12 with
 | VC c_ args_ =>
   if (c_ =? "Content::NeedMore")%string then
     match args_ with
-    | [a_15] => let self_16 := v_set "kind" (VC "Some" [(VC "Kind::Get" [a_15])]) self_2 in
+    | [a_15] => let self_16 := (v_set "kind" (VC "Some" [(VC "Kind::Get" [a_15])]) self_2) in
 (self_16, (VC "Ok" [(VC "None" [])]))
     | _ => next_14 tt
     end
@@ -239,7 +240,7 @@ match scrut_12 with
 | VC c_ args_ =>
   if (c_ =? "Content::Done")%string then
     match args_ with
-    | [a_17] => let self_18 := v_set "kind" (VC "None" []) self_2 in
+    | [a_17] => let self_18 := (v_set "kind" (VC "None" []) self_2) in
 (self_18, (VC "Ok" [(VC "Some" [(VC "CollectorResult::Get" [a_17])])]))
     | _ => next_13 tt
     end
@@ -278,7 +279,7 @@ match scrut_24 with
 | VC c_ args_ =>
   if (c_ =? "Content::NeedMore")%string then
     match args_ with
-    | [a_27] => let self_28 := v_set "kind" (VC "Some" [(VC "Kind::Return" [a_27])]) self_2 in
+    | [a_27] => let self_28 := (v_set "kind" (VC "Some" [(VC "Kind::Return" [a_27])]) self_2) in
 (self_28, (VC "Ok" [(VC "None" [])]))
     | _ => next_26 tt
     end
@@ -289,7 +290,7 @@ match scrut_24 with
 | VC c_ args_ =>
   if (c_ =? "Content::Done")%string then
     match args_ with
-    | [a_29] => let self_30 := v_set "kind" (VC "None" []) self_2 in
+    | [a_29] => let self_30 := (v_set "kind" (VC "None" []) self_2) in
 (self_30, (VC "Ok" [(VC "Some" [(VC "CollectorResult::Return" [a_29])])]))
     | _ => next_25 tt
     end
@@ -328,7 +329,7 @@ match scrut_36 with
 | VC c_ args_ =>
   if (c_ =? "Content::NeedMore")%string then
     match args_ with
-    | [a_39] => let self_40 := v_set "kind" (VC "Some" [(VC "Kind::Delivery" [a_39])]) self_2 in
+    | [a_39] => let self_40 := (v_set "kind" (VC "Some" [(VC "Kind::Delivery" [a_39])]) self_2) in
 (self_40, (VC "Ok" [(VC "None" [])]))
     | _ => next_38 tt
     end
@@ -343,7 +344,7 @@ match scrut_36 with
 | VC c_ args_ =>
   if (c_ =? "tuple")%string then
     match args_ with
-    | [a_42; a_43] => let self_44 := v_set "kind" (VC "None" []) self_2 in
+    | [a_42; a_43] => let self_44 := (v_set "kind" (VC "None" []) self_2) in
 (self_44, (VC "Ok" [(VC "Some" [(VC "CollectorResult::Delivery" [(VC "tuple" [a_42; a_43])])])]))
     | _ => next_37 tt
     end
@@ -407,7 +408,7 @@ match scrut_12 with
 | VC c_ args_ =>
   if (c_ =? "Content::NeedMore")%string then
     match args_ with
-    | [a_15] => let self_16 := v_set "kind" (VC "Some" [(VC "Kind::Get" [a_15])]) self_2 in
+    | [a_15] => let self_16 := (v_set "kind" (VC "Some" [(VC "Kind::Get" [a_15])]) self_2) in
 (self_16, (VC "Ok" [(VC "None" [])]))
     | _ => next_14 tt
     end
@@ -418,7 +419,7 @@ match scrut_12 with
 | VC c_ args_ =>
   if (c_ =? "Content::Done")%string then
     match args_ with
-    | [a_17] => let self_18 := v_set "kind" (VC "None" []) self_2 in
+    | [a_17] => let self_18 := (v_set "kind" (VC "None" []) self_2) in
 (self_18, (VC "Ok" [(VC "Some" [(VC "CollectorResult::Get" [a_17])])]))
     | _ => next_13 tt
     end
@@ -457,7 +458,7 @@ match scrut_24 with
 | VC c_ args_ =>
   if (c_ =? "Content::NeedMore")%string then
     match args_ with
-    | [a_27] => let self_28 := v_set "kind" (VC "Some" [(VC "Kind::Return" [a_27])]) self_2 in
+    | [a_27] => let self_28 := (v_set "kind" (VC "Some" [(VC "Kind::Return" [a_27])]) self_2) in
 (self_28, (VC "Ok" [(VC "None" [])]))
     | _ => next_26 tt
     end
@@ -468,7 +469,7 @@ match scrut_24 with
 | VC c_ args_ =>
   if (c_ =? "Content::Done")%string then
     match args_ with
-    | [a_29] => let self_30 := v_set "kind" (VC "None" []) self_2 in
+    | [a_29] => let self_30 := (v_set "kind" (VC "None" []) self_2) in
 (self_30, (VC "Ok" [(VC "Some" [(VC "CollectorResult::Return" [a_29])])]))
     | _ => next_25 tt
     end
@@ -507,7 +508,7 @@ match scrut_36 with
 | VC c_ args_ =>
   if (c_ =? "Content::NeedMore")%string then
     match args_ with
-    | [a_39] => let self_40 := v_set "kind" (VC "Some" [(VC "Kind::Delivery" [a_39])]) self_2 in
+    | [a_39] => let self_40 := (v_set "kind" (VC "Some" [(VC "Kind::Delivery" [a_39])]) self_2) in
 (self_40, (VC "Ok" [(VC "None" [])]))
     | _ => next_38 tt
     end
@@ -522,7 +523,7 @@ match scrut_36 with
 | VC c_ args_ =>
   if (c_ =? "tuple")%string then
     match args_ with
-    | [a_42; a_43] => let self_44 := v_set "kind" (VC "None" []) self_2 in
+    | [a_42; a_43] => let self_44 := (v_set "kind" (VC "None" []) self_2) in
 (self_44, (VC "Ok" [(VC "Some" [(VC "CollectorResult::Delivery" [(VC "tuple" [a_42; a_43])])])]))
     | _ => next_37 tt
     end
